@@ -314,13 +314,18 @@ func runLifeCase(c *LCase) {
 		step("timeout", func(s *LStep) {})
 		time.Sleep(time.Duration(200+r.Intn(800)) * time.Millisecond)
 		// the second player sits in, and the engine's own retry (within 3 s) is observed from the state that leaves
-		step("retry_wait", func(s *LStep) {
+		st := step("retry_wait", func(s *LStep) {
 			d.JoinAndSettle(lateJoiner)
 			s.Pre.LiveIn++
 			for w := 0; w < 45 && d.te.GetTable().State.GameCount == 0; w++ {
 				time.Sleep(100 * time.Millisecond)
 			}
 		})
+		if st.Post.GC == 0 {
+			// (no hand: on a slow run the ten retries may have run out; the step is not used and nothing further is observed)
+			c.Steps = c.Steps[:len(c.Steps)-1]
+			return
+		}
 	}
 	if c.Directed == "late_level" && !started {
 		// the blinds are not (all) set when the game is started: the first open is refused and retried every 3 s; the
@@ -347,13 +352,19 @@ func runLifeCase(c *LCase) {
 		bb := b
 		c.Steps = append(c.Steps, LStep{Op: "update_blind", Blind: &bb, Pre: pre, Post: post})
 		// ... and the engine's own retry (within 3 s) is observed from the state the update left
-		step("retry_wait", func(s *LStep) {
+		st := step("retry_wait", func(s *LStep) {
 			d.te.UpdateBlind(b.Level, b.Ante, b.Dealer, b.SB, b.BB)
 			s.Pre.Blind = b
 			for w := 0; w < 45 && d.te.GetTable().State.GameCount == 0; w++ {
 				time.Sleep(100 * time.Millisecond)
 			}
 		})
+		if st.Post.GC == 0 {
+			// (no hand: the level is one that cannot be played, or - on a slow run - the ten retries have run out; which of the two
+			// cannot be told: the step is not used and nothing further is observed)
+			c.Steps = c.Steps[:len(c.Steps)-1]
+			return
+		}
 	}
 	for k := 0; k < 90; k++ {
 		pre := lr.quiescentObs()
